@@ -178,6 +178,9 @@ func deltaFor(status string, next string, patches []interface{}, failWith map[st
 		patches = []interface{}{failingPatch}
 		if failWith != nil {
 			patches = []interface{}{failWith}
+			if list, ok := failWith["__list__"].([]interface{}); ok {
+				patches = list // several patches of which a later one fails
+			}
 		}
 	}
 	return ref.Delta(next, patches), patches
@@ -278,6 +281,10 @@ func (u *Universe) BuildAlphabet(winFrom, winUntil int64) {
 	// recover / deactivate that declare anchorFrom only (window ends at anchorFrom + MaxOperationTimeDelta)
 	add(u.MkSigned("rWd", "recover", u.R[0], cm(u.R[1]), cm(u.U[1]), d1, SignedOpts{From: winFrom}))
 	add(u.MkSigned("dWd", "deactivate", u.R[0], "", "", nil, SignedOpts{From: winFrom}))
+	// updates whose FIRST patches apply and whose last one fails: nothing of the list may stay behind
+	partial := map[string]interface{}{"__list__": []interface{}{patchAddServices(svcEntry("p1", "web", "https://example.com/p1")), patchAddKeys(pubKeyEntry("pk", u.X[1], "authentication")), failingPatch}}
+	add(u.MkSigned("uPF", "update", u.U[0], "", cm(u.U[1]), nil, SignedOpts{DeltaStatus: ref.DeltaFails, FailPatch: partial}))
+	add(u.MkSigned("u12PF", "update", u.U[1], "", cm(u.U[2]), nil, SignedOpts{DeltaStatus: ref.DeltaFails, FailPatch: partial}))
 	// genuine signatures by the key of the other commitment kind (update key on a recover/deactivate, recovery key on an update)
 	add(u.MkSigned("rU", "recover", u.U[0], cm(u.R[1]), cm(u.U[1]), d1, SignedOpts{}))
 	add(u.MkSigned("dU", "deactivate", u.U[0], "", "", nil, SignedOpts{}))
@@ -725,4 +732,35 @@ func aoKey(v interface{}) string {
 		return string(b)
 	}
 	return s
+}
+
+// forgeFromLegit copies a legitimate update / recover: same reveal value, same protected header and the owner's genuine
+// SIGNATURE, but a signed payload (and delta) of the attacker's choosing. It fails the authorisation test because the
+// signature does not cover the payload as transmitted - whatever was verified before.
+func forgeFromLegit(label string, legit *ref.Op, code uint64, evilNext string) *ref.Op {
+	if legit.Type != "update" && legit.Type != "recover" {
+		return nil
+	}
+	var req map[string]interface{}
+	if json.Unmarshal(legit.Request, &req) != nil {
+		return nil
+	}
+	sd, _ := req["signedData"].(string)
+	h, p, sig := ref.SplitJWS(sd)
+	raw, err := ref.UnB64(p)
+	if err != nil {
+		return nil
+	}
+	var payload map[string]interface{}
+	if json.Unmarshal(raw, &payload) != nil {
+		return nil
+	}
+	evil := ref.Delta(evilNext, []interface{}{patchAddServices(svcEntry("taken", "over", "https://attacker.example"))})
+	payload["deltaHash"] = ref.HashModel(code, evil)
+	req["delta"] = evil
+	req["signedData"] = h + "." + ref.B64(ref.MustJCS(payload)) + "." + sig
+	f := *legit
+	f.Label, f.Request, f.Authorised, f.NextUpdate, f.DeltaStatus = label, ref.MustJCS(req), false, evilNext, ref.DeltaOK
+	f.Patches = evil["patches"].([]interface{})
+	return &f
 }
